@@ -419,18 +419,26 @@ def imageSetPosts (s : FileSet.State) (n : String) (b : Nat) : Bool :=
     | .ok (_, old) => old ≠ b
     | .error _ => false
 
-def fileStep (f : FontF) (images : Bool) (op : FileSet.Op) (mutates : Bool) : Except Err FontF :=
-  let s := if images then f.images else f.data
-  match FileSet.step images s op with
+/-- `ImageSet/DataSet.dirty = True` reaches `Font._objectDirtyStateChange`, which looks at the flag -/
+def announceSet (f : FontF) (mutates : Bool) (d : Bool) : FontF := if mutates && d then raiseFont f else f
+
+def imageStep (f : FontF) (op : FileSet.Op) (mutates : Bool) : Except Err FontF :=
+  match FileSet.step true f.images op with
   | .error e => .error (.file e)
   | .ok s' =>
-    let f1 := if images then { f with images := s' } else { f with data := s' }
-    -- `ImageSet/DataSet.dirty = True` reaches `Font._objectDirtyStateChange`
-    let f2 := if mutates && s'.dirty then raiseFont f1 else f1
-    .ok (match images, op with
-      | true, .set n b => if imageSetPosts s n b then imageNotify f2 n else f2
-      | true, .del n => imageNotify f2 n
-      | _, _ => f2)
+    let f2 := announceSet { f with images := s' } mutates s'.dirty
+    .ok (match op with
+      | .set n b => if imageSetPosts f.images n b then imageNotify f2 n else f2
+      | .del n => imageNotify f2 n
+      | _ => f2)
+
+def dataStep (f : FontF) (op : FileSet.Op) (mutates : Bool) : Except Err FontF :=
+  match FileSet.step false f.data op with
+  | .error e => .error (.file e)
+  | .ok s' => .ok (announceSet { f with data := s' } mutates s'.dirty)
+
+def fileStep (f : FontF) (images : Bool) (op : FileSet.Op) (mutates : Bool) : Except Err FontF :=
+  if images then imageStep f op mutates else dataStep f op mutates
 
 def layerStep (f : FontF) (ln : String) (g : LayerF → Except Layer.Err (LayerF × Bool)) : Except Err FontF :=
   match lidOf f ln with
